@@ -13,3 +13,10 @@ package tiles
 //@   ghostmodifies n_fo, fo_id, fo_origin, fo_v, fo_w
 //@   ensures[C12.feed] n_fo <= old(n_fo) + 1
 //@   ensures[C12.feed] n_fo == old(n_fo) + 1 ==> fo_id == l.ID && fo_origin == l.Origin && fo_v == l.Verifier && fo_w == w
+
+// fetchProof (captures f, l): the proof builder is an external library (assumed not to panic)
+//@ func FeedLog$1
+//@   returns (p, err)
+//@   requires f != nil
+//@   modifies heap
+//@   ensures[C19.s] err != nil ==> p == nil
